@@ -1,4 +1,5 @@
 import Proofs.C15.Ops
+import Proofs.C15.Num
 /-!
 C15 — T3 (partial): type soundness of the fragment set
   S1 = { 0, 1, pk_k, c:, v:, a:, and_v, and_b, or_b, or_i }
@@ -23,6 +24,9 @@ open Btc Gen.Miniscript
 @[simp] theorem when_K (c : Bool) (p : Props) : (Props.when c p).K = (c && p.K) := by cases c <;> rfl
 @[simp] theorem when_W (c : Bool) (p : Props) : (Props.when c p).W = (c && p.W) := by cases c <;> rfl
 @[simp] theorem when_x (c : Bool) (p : Props) : (Props.when c p).x = (c && p.x) := by cases c <;> rfl
+@[simp] theorem or_u (a b : Props) : (a ||| b).u = (a.u || b.u) := rfl
+@[simp] theorem and_u (a b : Props) : (a &&& b).u = (a.u && b.u) := rfl
+@[simp] theorem when_u (c : Bool) (p : Props) : (Props.when c p).u = (c && p.u) := by cases c <;> rfl
 
 /-- a typed expression: its type names exactly one basic type (`_sanitized` kept it). -/
 def Typed (ctx : Ctx) (n : Ms) : Prop := (typeOf ctx n).basicCount = 1
@@ -209,11 +213,23 @@ end
 section
 variable (E : EvalEnv) (ctx : Ctx) (h160 : Bytes → Bytes)
 
-/-- what type "B" promises: a satisfaction leaves 0x01 on the stack, a dissatisfaction the empty
-    vector, nothing else is touched; and verified (`v:`), a satisfaction leaves nothing. -/
+/-- a true value that the numeric op codes can read: at most four bytes, `CastToBool`. -/
+def Truthy (v : Bytes) : Prop := numTruth v = some true
+
+theorem truthy_one : Truthy [1] := by unfold Truthy; decide
+
+theorem numTruth_nil : numTruth [] = some false := by decide
+
+theorem truthy_cast {v : Bytes} (h : Truthy v) : castToBool v = true := by
+  unfold Truthy numTruth at h
+  split at h <;> simp_all
+
+/-- what type "B" promises: a satisfaction leaves a true value on the stack — exactly 0x01 when the
+    type has "u" —, a dissatisfaction the empty vector, nothing else is touched; and verified
+    (`v:`), a satisfaction leaves nothing. -/
 def SoundB (n : Ms) : Prop :=
-  (∀ s stk al cs, executing cs = true → Sat E n s →
-    exec E (opsOf ctx h160 false n) ⟨s ++ stk, al, cs⟩ = some ⟨[1] :: stk, al, cs⟩) ∧
+  (∀ s stk al cs, executing cs = true → Sat E n s → ∃ v, Truthy v ∧ ((typeOf ctx n).u = true → v = [1]) ∧
+    exec E (opsOf ctx h160 false n) ⟨s ++ stk, al, cs⟩ = some ⟨v :: stk, al, cs⟩) ∧
   (∀ s stk al cs, executing cs = true → Dsat E n s →
     exec E (opsOf ctx h160 false n) ⟨s ++ stk, al, cs⟩ = some ⟨[] :: stk, al, cs⟩) ∧
   (∀ s stk al cs, executing cs = true → Sat E n s →
@@ -234,9 +250,10 @@ def SoundK (n : Ms) : Prop :=
 
 /-- type "W": the same as "B", reading from under the top element and writing next to it. -/
 def SoundW (n : Ms) : Prop :=
-  (∀ top s stk al cs, executing cs = true → Sat E n s → ∃ r,
+  (∀ top s stk al cs, executing cs = true → Sat E n s → ∃ v r, Truthy v ∧
+    ((typeOf ctx n).u = true → v = [1]) ∧
     exec E (opsOf ctx h160 false n) ⟨top :: (s ++ stk), al, cs⟩ = some ⟨r, al, cs⟩ ∧
-    (r = [1] :: top :: stk ∨ r = top :: [1] :: stk)) ∧
+    (r = v :: top :: stk ∨ r = top :: v :: stk)) ∧
   (∀ top s stk al cs, executing cs = true → Dsat E n s → ∃ r,
     exec E (opsOf ctx h160 false n) ⟨top :: (s ++ stk), al, cs⟩ = some ⟨r, al, cs⟩ ∧
     (r = [] :: top :: stk ∨ r = top :: [] :: stk))
@@ -434,6 +451,53 @@ theorem ty_d (x : Ms) (h : Typed ctx (.wrap .d x)) :
   simp [wrapperProperties, Props.basicCount, Props.has] at h ⊢
   exact ⟨h.1, h.2, h⟩
 
+theorem u_wrap_as (w : Wrap) (hw : w = .a ∨ w = .s) (x : Ms) (h : Typed ctx (.wrap w x)) :
+    (typeOf ctx (.wrap w x)).u = (typeOf ctx x).u := by
+  unfold Typed at h
+  simp only [typeOf] at h ⊢
+  rw [sanitized_eq _ h]
+  rcases hw with rfl | rfl <;> simp [wrapperProperties, Props.has]
+
+theorem u_and_v (x y : Ms) (h : Typed ctx (.bin .and_v x y)) :
+    (typeOf ctx (.bin .and_v x y)).u = (typeOf ctx y).u := by
+  unfold Typed at h
+  simp only [typeOf, Bin.isAnd, if_true] at h ⊢
+  rw [sanitized_eq _ h]
+  simp [andProperties, Props.has]
+
+theorem u_or_i (x y : Ms) (h : Typed ctx (.bin .or_i x y)) :
+    (typeOf ctx (.bin .or_i x y)).u = ((typeOf ctx x).u && (typeOf ctx y).u) := by
+  unfold Typed at h
+  simp only [typeOf, Bin.isAnd] at h ⊢
+  rw [sanitized_eq _ h]
+  simp [orProperties, Props.has]
+
+theorem u_or_d (x y : Ms) (h : Typed ctx (.bin .or_d x y)) :
+    (typeOf ctx x).u = true ∧ (typeOf ctx (.bin .or_d x y)).u = (typeOf ctx y).u := by
+  unfold Typed at h
+  simp only [typeOf, Bin.isAnd] at h ⊢
+  rw [sanitized_eq _ h]
+  rw [sanitized_eq _ h] at h
+  simp [orProperties, Props.basicCount, Props.has] at h ⊢
+  cases hu : (typeOf ctx x).u <;> simp_all
+
+theorem u_or_c (x y : Ms) (h : Typed ctx (.bin .or_c x y)) : (typeOf ctx x).u = true := by
+  unfold Typed at h
+  simp only [typeOf, Bin.isAnd] at h ⊢
+  rw [sanitized_eq _ h] at h
+  simp [orProperties, Props.basicCount, Props.has] at h
+  cases hu : (typeOf ctx x).u <;> simp_all
+
+theorem u_andor (x y z : Ms) (h : Typed ctx (.andor x y z)) :
+    (typeOf ctx x).u = true ∧
+    (typeOf ctx (.andor x y z)).u = ((typeOf ctx y).u && (typeOf ctx z).u) := by
+  unfold Typed at h
+  simp only [typeOf] at h ⊢
+  rw [sanitized_eq _ h]
+  rw [sanitized_eq _ h] at h
+  simp [andorProperties, Props.basicCount, Props.has] at h ⊢
+  cases hu : (typeOf ctx x).u <;> simp_all
+
 end
 
 /-! ### the induction -/
@@ -500,19 +564,39 @@ theorem sound_of_W (n : Ms) (ht : Typed ctx n) (hW : (typeOf ctx n).W = true)
 
 /-- when the last op code has no VERIFY form ("x") and the fragment ignores the flag, the verified
     run is the plain run followed by OP_VERIFY. -/
+theorem bVer_of_x' (n : Ms) (hx : (typeOf ctx n).x = true)
+    (hops : opsOf ctx h160 true n = opsOf ctx h160 false n)
+    (hsat : ∀ s stk al cs, executing cs = true → Sat E n s → ∃ v, Truthy v ∧
+      ((typeOf ctx n).u = true → v = [1]) ∧
+      exec E (opsOf ctx h160 false n) ⟨s ++ stk, al, cs⟩ = some ⟨v :: stk, al, cs⟩) :
+    ∀ s stk al cs, executing cs = true → Sat E n s →
+      exec E (opsOf ctx h160 true n ++ if (typeOf ctx n).x then [.verify] else [])
+        ⟨s ++ stk, al, cs⟩ = some ⟨stk, al, cs⟩ := by
+  intro s stk al cs hc hs
+  obtain ⟨v, hv, _, e⟩ := hsat s stk al cs hc hs
+  rw [hops, hx, exec_append, e]
+  simp [exec_cons_run E .verify [] _ al cs rfl hc, stepExec, truthy_cast hv]
+
+/-- a satisfaction that leaves exactly 0x01, in the form `SoundB` asks for. -/
+theorem bSat_of_one (n : Ms)
+    (hsat : ∀ s stk al cs, executing cs = true → Sat E n s →
+      exec E (opsOf ctx h160 false n) ⟨s ++ stk, al, cs⟩ = some ⟨[1] :: stk, al, cs⟩) :
+    ∀ s stk al cs, executing cs = true → Sat E n s → ∃ v, Truthy v ∧
+      ((typeOf ctx n).u = true → v = [1]) ∧
+      exec E (opsOf ctx h160 false n) ⟨s ++ stk, al, cs⟩ = some ⟨v :: stk, al, cs⟩ :=
+  fun s stk al cs hc hs => ⟨[1], truthy_one, fun _ => rfl, hsat s stk al cs hc hs⟩
+
 theorem bVer_of_x (n : Ms) (hx : (typeOf ctx n).x = true)
     (hops : opsOf ctx h160 true n = opsOf ctx h160 false n)
     (hsat : ∀ s stk al cs, executing cs = true → Sat E n s →
       exec E (opsOf ctx h160 false n) ⟨s ++ stk, al, cs⟩ = some ⟨[1] :: stk, al, cs⟩) :
     ∀ s stk al cs, executing cs = true → Sat E n s →
       exec E (opsOf ctx h160 true n ++ if (typeOf ctx n).x then [.verify] else [])
-        ⟨s ++ stk, al, cs⟩ = some ⟨stk, al, cs⟩ := by
-  intro s stk al cs hc hs
-  rw [hops, hx, exec_append, hsat s stk al cs hc hs]
-  simp [exec_cons_run E .verify [] _ al cs rfl hc, stepExec, castToBool]
+        ⟨s ++ stk, al, cs⟩ = some ⟨stk, al, cs⟩ :=
+  bVer_of_x' E ctx h160 n hx hops (bSat_of_one E ctx h160 n hsat)
 
 theorem sound_f0 : Sound E ctx h160 .f0 := by
-  refine sound_of_B E ctx h160 _ rfl rfl ⟨?_, ?_, ?_⟩
+  refine sound_of_B E ctx h160 _ rfl rfl ⟨bSat_of_one E ctx h160 _ ?_, ?_, ?_⟩
   · intro s stk al cs _ hs; cases hs
   · intro s stk al cs hc hs; cases hs
     simp [opsOf, exec_cons_run E .op0 [] _ al cs rfl hc, stepExec]
@@ -523,7 +607,7 @@ theorem sound_f1 : Sound E ctx h160 .f1 := by
       exec E (opsOf ctx h160 false .f1) ⟨s ++ stk, al, cs⟩ = some ⟨[1] :: stk, al, cs⟩ := by
     intro s stk al cs hc hs; cases hs
     simp [opsOf, exec_cons_run E .op1 [] _ al cs rfl hc, stepExec]
-  refine sound_of_B E ctx h160 _ rfl rfl ⟨hsat, ?_, bVer_of_x E ctx h160 _ rfl rfl hsat⟩
+  refine sound_of_B E ctx h160 _ rfl rfl ⟨bSat_of_one E ctx h160 _ hsat, ?_, bVer_of_x E ctx h160 _ rfl rfl hsat⟩
   intro s stk al cs _ hs; cases hs
 
 theorem sound_pk_k (hsig0 : ∀ k, E.sigOK k [] = false) (k : Key) : Sound E ctx h160 (.pk_k k) := by
@@ -562,7 +646,7 @@ theorem sound_hash (h : HashKind) (d : Bytes) : Sound E ctx h160 (.hash h d) := 
       [.size, .pushnum 32, .equalverify, .hashop h, .push d] ++ [if v then .equalverify else .equal] := by
     intro v; simp [opsOf]
   have hx : (typeOf ctx (.hash h d)).x = false := rfl
-  refine sound_of_B E ctx h160 _ rfl rfl ⟨?_, ?_, ?_⟩
+  refine sound_of_B E ctx h160 _ rfl rfl ⟨bSat_of_one E ctx h160 _ ?_, ?_, ?_⟩
   · intro s stk al cs hc hs; cases hs with
     | hash _ _ p hp hd =>
       rw [hops, exec_append, run false p stk al cs hc hp, Option.bind_some]
@@ -582,7 +666,7 @@ theorem sound_c (x : Ms) (ht : Typed ctx (.wrap .c x)) (ih : Sound E ctx h160 x)
     Sound E ctx h160 (.wrap .c x) := by
   obtain ⟨hK, hB, hx⟩ := ty_c ctx x ht
   obtain ⟨ks, kd⟩ := ih.2.2.1 hK
-  refine sound_of_B E ctx h160 _ ht hB ⟨?_, ?_, ?_⟩
+  refine sound_of_B E ctx h160 _ ht hB ⟨bSat_of_one E ctx h160 _ ?_, ?_, ?_⟩
   · intro s stk al cs hc hs
     cases hs with
     | wrap _ _ _ _ _ hs =>
@@ -616,9 +700,10 @@ theorem sound_a (x : Ms) (ht : Typed ctx (.wrap .a x)) (ih : Sound E ctx h160 x)
   · intro top s stk al cs hc hs
     cases hs with
     | wrap _ _ _ _ _ hs =>
-      refine ⟨top :: [1] :: stk, ?_, Or.inr rfl⟩
+      obtain ⟨v, hv, hu, e⟩ := bs s stk (top :: al) cs hc hs
+      refine ⟨v, top :: v :: stk, hv, fun h => hu (by rw [← u_wrap_as ctx .a (Or.inl rfl) x ht]; exact h), ?_, Or.inr rfl⟩
       simp [opsOf, exec_append, exec_cons_run E .toalt _ _ al cs rfl hc, stepExec,
-        bs s stk (top :: al) cs hc hs, exec_cons_run E .fromalt [] _ (top :: al) cs rfl hc]
+        e, exec_cons_run E .fromalt [] _ (top :: al) cs rfl hc]
   · intro top s stk al cs hc hs
     cases hs with
     | wrap_a _ _ hs =>
@@ -641,8 +726,10 @@ theorem sound_and_v (x y : Ms) (ht : Typed ctx (.bin .and_v x y)) (ihx : Sound E
       cases hs with
       | and_v _ _ sx sy hsx hsy =>
         have := vx sx (sy ++ stk) al cs hc hsx
+        obtain ⟨v, hv, hu, e⟩ := bs sy stk al cs hc hsy
+        refine ⟨v, hv, fun h => hu (by rw [← u_and_v ctx x y ht]; exact h), ?_⟩
         simp only [List.append_assoc]
-        simp [opsOf, exec_append, this, bs sy stk al cs hc hsy]
+        simp [opsOf, exec_append, this, e]
     · intro s stk al cs hc hs
       cases hs with
       | and_v_d _ _ sx sy hsx hsy =>
@@ -699,13 +786,15 @@ theorem sound_and_b (x y : Ms) (ht : Typed ctx (.bin .and_b x y)) (ihx : Sound E
     intro s stk al cs hc hs
     cases hs with
     | and_b _ _ sx sy hsx hsy =>
-      have h1 := xs sx (sy ++ stk) al cs hc hsx
-      obtain ⟨r, h2, hr⟩ := ws [1] sy stk al cs hc hsy
+      obtain ⟨v1, hv1, _, h1⟩ := xs sx (sy ++ stk) al cs hc hsx
+      have e1 : numTruth v1 = some true := hv1
+      obtain ⟨v2, r, hv2, _, h2, hr⟩ := ws v1 sy stk al cs hc hsy
+      have e2 : numTruth v2 = some true := hv2
       simp only [opsOf, List.append_assoc]
       rw [exec_append, h1, Option.bind_some, exec_append, h2, Option.bind_some]
       rcases hr with rfl | rfl <;>
-        simp [exec_cons_run E .booland [] _ al cs rfl hc, stepExec, numTruth, castToBool, boolBytes]
-  refine sound_of_B E ctx h160 _ ht tB ⟨hsat, ?_, bVer_of_x E ctx h160 _ tx rfl hsat⟩
+        simp [exec_cons_run E .booland [] _ al cs rfl hc, stepExec, numTruth_nil, boolBytes, e1, e2]
+  refine sound_of_B E ctx h160 _ ht tB ⟨bSat_of_one E ctx h160 _ hsat, ?_, bVer_of_x E ctx h160 _ tx rfl hsat⟩
   intro s stk al cs hc hs
   cases hs with
     | and_b _ _ sx sy hsx hsy =>
@@ -714,21 +803,23 @@ theorem sound_and_b (x y : Ms) (ht : Typed ctx (.bin .and_b x y)) (ihx : Sound E
       simp only [opsOf, List.append_assoc]
       rw [exec_append, h1, Option.bind_some, exec_append, h2, Option.bind_some]
       rcases hr with rfl | rfl <;>
-        simp [exec_cons_run E .booland [] _ al cs rfl hc, stepExec, numTruth, castToBool, boolBytes]
+        simp [exec_cons_run E .booland [] _ al cs rfl hc, stepExec, numTruth_nil, boolBytes]
     | and_b_l _ _ sx sy hsx hsy =>
-      have h1 := xs sx (sy ++ stk) al cs hc hsx
-      obtain ⟨r, h2, hr⟩ := wd [1] sy stk al cs hc hsy
+      obtain ⟨v1, hv1, _, h1⟩ := xs sx (sy ++ stk) al cs hc hsx
+      have e1 : numTruth v1 = some true := hv1
+      obtain ⟨r, h2, hr⟩ := wd v1 sy stk al cs hc hsy
       simp only [opsOf, List.append_assoc]
       rw [exec_append, h1, Option.bind_some, exec_append, h2, Option.bind_some]
       rcases hr with rfl | rfl <;>
-        simp [exec_cons_run E .booland [] _ al cs rfl hc, stepExec, numTruth, castToBool, boolBytes]
+        simp [exec_cons_run E .booland [] _ al cs rfl hc, stepExec, numTruth_nil, boolBytes, e1]
     | and_b_r _ _ sx sy hsx hsy =>
       have h1 := xd sx (sy ++ stk) al cs hc hsx
-      obtain ⟨r, h2, hr⟩ := ws [] sy stk al cs hc hsy
+      obtain ⟨v2, r, hv2, _, h2, hr⟩ := ws [] sy stk al cs hc hsy
+      have e2 : numTruth v2 = some true := hv2
       simp only [opsOf, List.append_assoc]
       rw [exec_append, h1, Option.bind_some, exec_append, h2, Option.bind_some]
       rcases hr with rfl | rfl <;>
-        simp [exec_cons_run E .booland [] _ al cs rfl hc, stepExec, numTruth, castToBool, boolBytes]
+        simp [exec_cons_run E .booland [] _ al cs rfl hc, stepExec, numTruth_nil, boolBytes, e2]
 
 theorem sound_or_b (x y : Ms) (ht : Typed ctx (.bin .or_b x y)) (ihx : Sound E ctx h160 x)
     (ihy : Sound E ctx h160 y) : Sound E ctx h160 (.bin .or_b x y) := by
@@ -741,27 +832,31 @@ theorem sound_or_b (x y : Ms) (ht : Typed ctx (.bin .or_b x y)) (ihx : Sound E c
     intro s stk al cs hc hs
     cases hs with
     | or_b_l _ _ sx sy hsx hsy =>
-      have h1 := xs sx (sy ++ stk) al cs hc hsx
-      obtain ⟨r, h2, hr⟩ := wd [1] sy stk al cs hc hsy
+      obtain ⟨v1, hv1, _, h1⟩ := xs sx (sy ++ stk) al cs hc hsx
+      have e1 : numTruth v1 = some true := hv1
+      obtain ⟨r, h2, hr⟩ := wd v1 sy stk al cs hc hsy
       simp only [opsOf, List.append_assoc]
       rw [exec_append, h1, Option.bind_some, exec_append, h2, Option.bind_some]
       rcases hr with rfl | rfl <;>
-        simp [exec_cons_run E .boolor [] _ al cs rfl hc, stepExec, numTruth, castToBool, boolBytes]
+        simp [exec_cons_run E .boolor [] _ al cs rfl hc, stepExec, numTruth_nil, boolBytes, e1]
     | or_b_r _ _ sx sy hsx hsy =>
       have h1 := xd sx (sy ++ stk) al cs hc hsx
-      obtain ⟨r, h2, hr⟩ := ws [] sy stk al cs hc hsy
+      obtain ⟨v2, r, hv2, _, h2, hr⟩ := ws [] sy stk al cs hc hsy
+      have e2 : numTruth v2 = some true := hv2
       simp only [opsOf, List.append_assoc]
       rw [exec_append, h1, Option.bind_some, exec_append, h2, Option.bind_some]
       rcases hr with rfl | rfl <;>
-        simp [exec_cons_run E .boolor [] _ al cs rfl hc, stepExec, numTruth, castToBool, boolBytes]
+        simp [exec_cons_run E .boolor [] _ al cs rfl hc, stepExec, numTruth_nil, boolBytes, e2]
     | or_b_both _ _ sx sy hsx hsy =>
-      have h1 := xs sx (sy ++ stk) al cs hc hsx
-      obtain ⟨r, h2, hr⟩ := ws [1] sy stk al cs hc hsy
+      obtain ⟨v1, hv1, _, h1⟩ := xs sx (sy ++ stk) al cs hc hsx
+      have e1 : numTruth v1 = some true := hv1
+      obtain ⟨v2, r, hv2, _, h2, hr⟩ := ws v1 sy stk al cs hc hsy
+      have e2 : numTruth v2 = some true := hv2
       simp only [opsOf, List.append_assoc]
       rw [exec_append, h1, Option.bind_some, exec_append, h2, Option.bind_some]
       rcases hr with rfl | rfl <;>
-        simp [exec_cons_run E .boolor [] _ al cs rfl hc, stepExec, numTruth, castToBool, boolBytes]
-  refine sound_of_B E ctx h160 _ ht tB ⟨hsat, ?_, bVer_of_x E ctx h160 _ tx rfl hsat⟩
+        simp [exec_cons_run E .boolor [] _ al cs rfl hc, stepExec, numTruth_nil, boolBytes, e1, e2]
+  refine sound_of_B E ctx h160 _ ht tB ⟨bSat_of_one E ctx h160 _ hsat, ?_, bVer_of_x E ctx h160 _ tx rfl hsat⟩
   intro s stk al cs hc hs
   cases hs with
     | or_b _ _ sx sy hsx hsy =>
@@ -770,7 +865,7 @@ theorem sound_or_b (x y : Ms) (ht : Typed ctx (.bin .or_b x y)) (ihx : Sound E c
       simp only [opsOf, List.append_assoc]
       rw [exec_append, h1, Option.bind_some, exec_append, h2, Option.bind_some]
       rcases hr with rfl | rfl <;>
-        simp [exec_cons_run E .boolor [] _ al cs rfl hc, stepExec, numTruth, castToBool, boolBytes]
+        simp [exec_cons_run E .boolor [] _ al cs rfl hc, stepExec, numTruth_nil, boolBytes]
 
 theorem exec_or_i_l (x y : Ms) (v : Bool) (hy : inS1 y = true) (st st' al al' : List Bytes)
     (cs : List Bool) (hc : executing cs = true)
@@ -809,16 +904,22 @@ theorem sound_or_i (x y : Ms) (ht : Typed ctx (.bin .or_i x y)) (hix : inS1 x = 
     rw [eB, Bool.and_eq_true] at hB
     obtain ⟨xs, xd, _⟩ := ihx.1 hB.1
     obtain ⟨ys, yd, _⟩ := ihy.1 hB.2
-    have hsat : ∀ s stk al cs, executing cs = true → Sat E (.bin .or_i x y) s →
+    have hu := u_or_i ctx x y ht
+    have hsat : ∀ s stk al cs, executing cs = true → Sat E (.bin .or_i x y) s → ∃ v, Truthy v ∧
+        ((typeOf ctx (.bin .or_i x y)).u = true → v = [1]) ∧
         exec E (opsOf ctx h160 false (.bin .or_i x y)) ⟨s ++ stk, al, cs⟩ =
-          some ⟨[1] :: stk, al, cs⟩ := by
+          some ⟨v :: stk, al, cs⟩ := by
       intro s stk al cs hc hs
       cases hs with
       | or_i_l _ _ sx hsx =>
-        exact exec_or_i_l E ctx h160 x y false hiy _ _ al al cs hc (xs sx stk al _ (hcs cs hc) hsx)
+        obtain ⟨v, hv, hvu, e⟩ := xs sx stk al _ (hcs cs hc) hsx
+        exact ⟨v, hv, fun h => hvu (by rw [hu, Bool.and_eq_true] at h; exact h.1),
+          exec_or_i_l E ctx h160 x y false hiy _ _ al al cs hc e⟩
       | or_i_r _ _ sy hsy =>
-        exact exec_or_i_r E ctx h160 x y false hix _ _ al al cs hc (ys sy stk al _ (hcs cs hc) hsy)
-    refine ⟨hsat, ?_, bVer_of_x E ctx h160 _ ex rfl hsat⟩
+        obtain ⟨v, hv, hvu, e⟩ := ys sy stk al _ (hcs cs hc) hsy
+        exact ⟨v, hv, fun h => hvu (by rw [hu, Bool.and_eq_true] at h; exact h.2),
+          exec_or_i_r E ctx h160 x y false hix _ _ al al cs hc e⟩
+    refine ⟨hsat, ?_, bVer_of_x' E ctx h160 _ ex rfl hsat⟩
     intro s stk al cs hc hs
     cases hs with
     | or_i_l _ _ sx hsx =>
@@ -867,9 +968,10 @@ theorem sound_n (x : Ms) (ht : Typed ctx (.wrap .n x)) (ih : Sound E ctx h160 x)
     intro s stk al cs hc hs
     cases hs with
     | wrap _ _ _ _ _ hs =>
-      simp [opsOf, exec_append, bs s stk al cs hc hs,
-        exec_cons_run E .zeronotequal [] _ al cs rfl hc, stepExec, numTruth, castToBool, boolBytes]
-  refine sound_of_B E ctx h160 _ ht tB ⟨hsat, ?_, bVer_of_x E ctx h160 _ tx rfl hsat⟩
+      obtain ⟨v, hv, _, e⟩ := bs s stk al cs hc hs
+      have e1 : numTruth v = some true := hv
+      simp [opsOf, exec_append, e, exec_cons_run E .zeronotequal [] _ al cs rfl hc, stepExec, e1, boolBytes]
+  refine sound_of_B E ctx h160 _ ht tB ⟨bSat_of_one E ctx h160 _ hsat, ?_, bVer_of_x E ctx h160 _ tx rfl hsat⟩
   intro s stk al cs hc hs
   cases hs with
   | wrap_n _ _ hs =>
@@ -905,6 +1007,12 @@ theorem sound_or_c (x y : Ms) (ht : Typed ctx (.bin .or_c x y)) (hiy : inS1 y = 
     Sound E ctx h160 (.bin .or_c x y) := by
   obtain ⟨hB, hV, tV⟩ := ty_or_c ctx x y ht
   obtain ⟨xs, xd, _⟩ := ihx.1 hB
+  have hxu := u_or_c ctx x y ht
+  have xs1 : ∀ s stk al cs, executing cs = true → Sat E x s →
+      exec E (opsOf ctx h160 false x) ⟨s ++ stk, al, cs⟩ = some ⟨[1] :: stk, al, cs⟩ := by
+    intro s stk al cs hc hs
+    obtain ⟨v, _, hvu, e⟩ := xs s stk al cs hc hs
+    rw [hvu hxu] at e; exact e
   have vy := ihy.2.1 hV
   refine sound_of_V E ctx h160 _ ht tV ?_
   intro s stk al cs hc hs
@@ -914,7 +1022,7 @@ theorem sound_or_c (x y : Ms) (ht : Typed ctx (.bin .or_c x y)) (hiy : inS1 y = 
   rw [hops, exec_append]
   cases hs with
   | or_c_l _ _ _ hsx =>
-    rw [xs _ stk al cs hc hsx, Option.bind_some]
+    rw [xs1 _ stk al cs hc hsx, Option.bind_some]
     exact notif_tail_l E ctx h160 y hiy stk al cs hc
   | or_c_r _ _ sx sy hsx hsy =>
     rw [List.append_assoc, xd sx (sy ++ stk) al cs hc hsx, Option.bind_some]
@@ -926,6 +1034,12 @@ theorem sound_or_d (x y : Ms) (ht : Typed ctx (.bin .or_d x y)) (hiy : inS1 y = 
     Sound E ctx h160 (.bin .or_d x y) := by
   obtain ⟨hB, hB', tB, tx⟩ := ty_or_d ctx x y ht
   obtain ⟨xs, xd, _⟩ := ihx.1 hB
+  obtain ⟨hxu, hu⟩ := u_or_d ctx x y ht
+  have xs1 : ∀ s stk al cs, executing cs = true → Sat E x s →
+      exec E (opsOf ctx h160 false x) ⟨s ++ stk, al, cs⟩ = some ⟨[1] :: stk, al, cs⟩ := by
+    intro s stk al cs hc hs
+    obtain ⟨v, _, hvu, e⟩ := xs s stk al cs hc hs
+    rw [hvu hxu] at e; exact e
   obtain ⟨ys, yd, _⟩ := ihy.1 hB'
   have hops : opsOf ctx h160 false (.bin .or_d x y) =
       opsOf ctx h160 false x ++ ([.ifdup] ++ ([.notif] ++ opsOf ctx h160 false y ++ [.endif])) := by
@@ -947,19 +1061,23 @@ theorem sound_or_d (x y : Ms) (ht : Typed ctx (.bin .or_d x y)) (hiy : inS1 y = 
     exact notif_tail_r E ctx h160 y stk st' al al cs hc hy
   have hcs : ∀ cs, executing cs = true → executing (true :: cs) = true := by
     intro cs h; simp [executing_cons, h]
-  have hsat : ∀ s stk al cs, executing cs = true → Sat E (.bin .or_d x y) s →
+  have hsat : ∀ s stk al cs, executing cs = true → Sat E (.bin .or_d x y) s → ∃ v, Truthy v ∧
+      ((typeOf ctx (.bin .or_d x y)).u = true → v = [1]) ∧
       exec E (opsOf ctx h160 false (.bin .or_d x y)) ⟨s ++ stk, al, cs⟩ =
-        some ⟨[1] :: stk, al, cs⟩ := by
+        some ⟨v :: stk, al, cs⟩ := by
     intro s stk al cs hc hs
-    rw [hops, exec_append]
+    rw [hops]
     cases hs with
     | or_d_l _ _ _ hsx =>
-      rw [xs _ stk al cs hc hsx, Option.bind_some]
+      refine ⟨[1], truthy_one, fun _ => rfl, ?_⟩
+      rw [exec_append, xs1 _ stk al cs hc hsx, Option.bind_some]
       exact dupT stk al cs hc
     | or_d_r _ _ sx sy hsx hsy =>
-      rw [List.append_assoc, xd sx (sy ++ stk) al cs hc hsx, Option.bind_some]
-      exact dupF _ _ al cs hc (ys sy stk al _ (hcs cs hc) hsy)
-  refine sound_of_B E ctx h160 _ ht tB ⟨hsat, ?_, bVer_of_x E ctx h160 _ tx rfl hsat⟩
+      obtain ⟨v, hv, hvu, e⟩ := ys sy stk al _ (hcs cs hc) hsy
+      refine ⟨v, hv, fun h => hvu (by rw [hu] at h; exact h), ?_⟩
+      rw [exec_append, List.append_assoc, xd sx (sy ++ stk) al cs hc hsx, Option.bind_some]
+      exact dupF _ _ al cs hc e
+  refine sound_of_B E ctx h160 _ ht tB ⟨hsat, ?_, bVer_of_x' E ctx h160 _ tx rfl hsat⟩
   intro s stk al cs hc hs
   rw [hops, exec_append]
   cases hs with
@@ -1001,6 +1119,12 @@ theorem sound_andor (x y z : Ms) (ht : Typed ctx (.andor x y z)) (hiy : inS1 y =
     (ihz : Sound E ctx h160 z) : Sound E ctx h160 (.andor x y z) := by
   obtain ⟨hB, eB, eV, eK, eW, ex⟩ := ty_andor ctx x y z ht
   obtain ⟨xs, xd, _⟩ := ihx.1 hB
+  obtain ⟨hxu, hu⟩ := u_andor ctx x y z ht
+  have xs1 : ∀ s stk al cs, executing cs = true → Sat E x s →
+      exec E (opsOf ctx h160 false x) ⟨s ++ stk, al, cs⟩ = some ⟨[1] :: stk, al, cs⟩ := by
+    intro s stk al cs hc hs
+    obtain ⟨v, _, hvu, e⟩ := xs s stk al cs hc hs
+    rw [hvu hxu] at e; exact e
   have hops : opsOf ctx h160 false (.andor x y z) = opsOf ctx h160 false x ++
       ([.notif] ++ opsOf ctx h160 false z ++ [.opelse] ++ opsOf ctx h160 false y ++ [.endif]) := by
     simp [opsOf]
@@ -1012,7 +1136,7 @@ theorem sound_andor (x y z : Ms) (ht : Typed ctx (.andor x y z)) (hiy : inS1 y =
       exec E (opsOf ctx h160 false (.andor x y z)) ⟨(sx ++ sy) ++ stk, al, cs⟩ =
         some ⟨st', al, cs⟩ := by
     intro sx sy stk st' al cs hc hsx hy
-    rw [hops, exec_append, List.append_assoc, xs sx (sy ++ stk) al cs hc hsx, Option.bind_some]
+    rw [hops, exec_append, List.append_assoc, xs1 sx (sy ++ stk) al cs hc hsx, Option.bind_some]
     exact andor_tail_l E ctx h160 y z hiz _ _ al al cs hc hy
   have viaZ : ∀ sx sz stk st' al cs, executing cs = true → Dsat E x sx →
       exec E (opsOf ctx h160 false z) ⟨sz ++ stk, al, true :: cs⟩ = some ⟨st', al, true :: cs⟩ →
@@ -1026,14 +1150,21 @@ theorem sound_andor (x y z : Ms) (ht : Typed ctx (.andor x y z)) (hiy : inS1 y =
     rw [eB, Bool.and_eq_true] at hB'
     obtain ⟨ys, yd, _⟩ := ihy.1 hB'.1
     obtain ⟨zs, zd, _⟩ := ihz.1 hB'.2
-    have hsat : ∀ s stk al cs, executing cs = true → Sat E (.andor x y z) s →
+    have hsat : ∀ s stk al cs, executing cs = true → Sat E (.andor x y z) s → ∃ v, Truthy v ∧
+        ((typeOf ctx (.andor x y z)).u = true → v = [1]) ∧
         exec E (opsOf ctx h160 false (.andor x y z)) ⟨s ++ stk, al, cs⟩ =
-          some ⟨[1] :: stk, al, cs⟩ := by
+          some ⟨v :: stk, al, cs⟩ := by
       intro s stk al cs hc hs
       cases hs with
-      | andor_l _ _ _ sx sy hsx hsy => exact viaY sx sy stk _ al cs hc hsx (ys sy stk al _ (hcs cs hc) hsy)
-      | andor_r _ _ _ sx sz hsx hsz => exact viaZ sx sz stk _ al cs hc hsx (zs sz stk al _ (hcs cs hc) hsz)
-    refine ⟨hsat, ?_, bVer_of_x E ctx h160 _ ex rfl hsat⟩
+      | andor_l _ _ _ sx sy hsx hsy =>
+        obtain ⟨v, hv, hvu, e⟩ := ys sy stk al _ (hcs cs hc) hsy
+        exact ⟨v, hv, fun h => hvu (by rw [hu, Bool.and_eq_true] at h; exact h.1),
+          viaY sx sy stk _ al cs hc hsx e⟩
+      | andor_r _ _ _ sx sz hsx hsz =>
+        obtain ⟨v, hv, hvu, e⟩ := zs sz stk al _ (hcs cs hc) hsz
+        exact ⟨v, hv, fun h => hvu (by rw [hu, Bool.and_eq_true] at h; exact h.2),
+          viaZ sx sz stk _ al cs hc hsx e⟩
+    refine ⟨hsat, ?_, bVer_of_x' E ctx h160 _ ex rfl hsat⟩
     intro s stk al cs hc hs
     cases hs with
     | andor _ _ _ sx sz hsx hsz => exact viaZ sx sz stk _ al cs hc hsx (zd sz stk al _ (hcs cs hc) hsz)
@@ -1236,8 +1367,9 @@ theorem sound_s (x : Ms) (ht : Typed ctx (.wrap .s x)) (ih : Sound E ctx h160 x)
       have hl := (hlen s (Or.inl hs)).2 ho
       match s, hl with
       | [e], _ =>
-        refine ⟨[1] :: top :: stk, ?_, Or.inl rfl⟩
-        have := bs [e] (top :: stk) al cs hc hs
+        obtain ⟨v, hv, hvu, this⟩ := bs [e] (top :: stk) al cs hc hs
+        refine ⟨v, v :: top :: stk, hv,
+          fun h => hvu (by rw [← u_wrap_as ctx .s (Or.inr rfl) x ht]; exact h), ?_, Or.inl rfl⟩
         simp only [List.cons_append, List.nil_append] at this
         simp [opsOf, exec_cons_run E .swap _ _ al cs rfl hc, stepExec, this]
   · intro top s stk al cs hc hs
@@ -1275,7 +1407,7 @@ theorem sound_d (x : Ms) (ht : Typed ctx (.wrap .d x)) (hix : inS1 x = true)
         simp only [opsOf, List.append_assoc, List.cons_append, List.nil_append]
         rw [exec_cons_run E .dup _ _ al cs rfl hc]
         simp only [stepExec, Option.bind_some, exec, e0, exec_append, e1, e2]
-  refine sound_of_B E ctx h160 _ ht tB ⟨hsat, ?_, bVer_of_x E ctx h160 _ tx rfl hsat⟩
+  refine sound_of_B E ctx h160 _ ht tB ⟨bSat_of_one E ctx h160 _ hsat, ?_, bVer_of_x E ctx h160 _ tx rfl hsat⟩
   intro s stk al cs hc hs
   cases hs with
   | wrap_d _ =>
